@@ -18,7 +18,7 @@ func init() { register(c03{}) }
 
 func (c03) ID() string { return "C03" }
 func (c03) Cases(t fw.Tier) int {
-	return tierN(t, 12000, 500000)
+	return tierN(t, 50000, 1500000)
 }
 func (c03) Rule() string {
 	return "each case generates a reference universe: a root document plus 0-3 Loader documents (chains, diamonds, cycles via route references), each a tree of embedded resources with relative / absolute / dot-segment / urn $id values, " +
